@@ -6,4 +6,6 @@ CHECKS = {
     "C05": ecs.run,
     "C14": ecs.run,
     "C06": essa.c06,
+    "C08": essa.c08,
+    "C01": essa.c01,
 }
